@@ -316,6 +316,10 @@ class G2:
             rv = self.expr() if r.random() < 0.6 else None
             return ("fn", self.name(), fl, params, ret, (stmts, rv))
         if kind == "struct":
+            if r.random() < 0.15:
+                # opaque structure: `struct Name;`
+                self.hit("decl:struct_opaque")
+                return ("struct", self.name(True), tuple(sorted(set(fl) | {"OpaqueStruct"})), -1, [])
             return ("struct", self.name(True), fl, -1, [(self.name(), self.gtype(2)) for _ in range(r.randrange(0, 5))])
         if kind == "word":
             bits = r.choice([8, 16, 32, 64, 128])
@@ -544,6 +548,8 @@ class Src:
             return prefix + "const %s: %s = %s;\n" % (d[1], type_src(d[3]), self.expr(d[4]))
         if k == "struct":
             kw = "struct" if d[3] < 0 else "word%d" % (d[3] * 8)
+            if "OpaqueStruct" in flags:
+                return prefix + kw + self.l.sp() + d[1] + self.l.opt() + ";\n"
             members = ["%s: %s" % (m, type_src(t)) for m, t in d[4]]
             return prefix + kw + " " + d[1] + "\n" + self.l.comma_list(members, "{", "}") + "\n"
         if k == "fn":
